@@ -17,7 +17,8 @@ use std::collections::{BTreeSet, HashMap};
 use std::path::{Path, PathBuf};
 
 pub const REAL: [(&str, &str); 3] = [("A", "01285"), ("B", "01836"), ("C", "02019")];
-const SUBSETS: [&str; 7] = ["A", "B", "C", "AB", "BC", "ABC", "AC"];
+/// `E` = an empty chunk file (zero-length .chunk / .secondary, all-zero .primary) at that position
+const SUBSETS: [&str; 13] = ["A", "B", "C", "AB", "BC", "ABC", "AC", "EABC", "AEBC", "ABEC", "AEEBC", "EAB", "ABE"];
 
 pub fn load_real(intern: &mut Interner) -> Vec<ChunkFile> {
     let td = test_data();
@@ -34,8 +35,21 @@ pub fn load_real(intern: &mut Interner) -> Vec<ChunkFile> {
     chunks
 }
 
-fn subset_chunks<'a>(id: &str, chunks: &'a [ChunkFile]) -> Vec<&'a ChunkFile> {
-    REAL.iter().enumerate().filter(|(_, (l, _))| id.contains(l)).map(|(i, _)| &chunks[i]).collect()
+/// the chunk files of a subset, in file-name order; empty ones get names that sort in place
+fn subset_chunks(id: &str, chunks: &[ChunkFile]) -> Vec<ChunkFile> {
+    let mut out: Vec<ChunkFile> = Vec::new();
+    let mut last = 0u32;
+    for ch in id.chars() {
+        if ch == 'E' {
+            last += 1;
+            out.push(ChunkFile { name: format!("{:05}", last), blocks: vec![] });
+        } else {
+            let i = REAL.iter().position(|(l, _)| l.chars().next() == Some(ch)).unwrap_or_else(|| die("bad subset id"));
+            last = chunks[i].name.parse().unwrap_or_else(|_| die("chunk name"));
+            out.push(chunks[i].clone());
+        }
+    }
+    out
 }
 
 pub fn real_dir(work: &Path, id: &str) -> PathBuf {
@@ -54,7 +68,11 @@ pub fn prepare(args: &Args) {
         let cs = subset_chunks(id, &chunks);
         let dir = real_dir(&work, id);
         for c in &cs {
-            copy_triple(&td, &c.name, &dir, &c.name);
+            if c.blocks.is_empty() && !REAL.iter().any(|(_, n)| *n == c.name) {
+                write_triple(&dir, &c.name, &[], &[]);
+            } else {
+                copy_triple(&td, &c.name, &dir, &c.name);
+            }
         }
         let imm: Vec<&BlockRef> = cs[..cs.len() - 1].iter().flat_map(|c| c.blocks.iter()).collect();
         let dropped: Vec<&BlockRef> = cs[cs.len() - 1].blocks.iter().collect();
@@ -68,7 +86,9 @@ pub fn prepare(args: &Args) {
         } else if !imm.is_empty() {
             let mut pos = 0;
             for c in &cs[..cs.len() - 1] {
-                picks.extend([pos, pos + 1, pos + c.blocks.len() - 2, pos + c.blocks.len() - 1]);
+                if c.blocks.len() >= 2 {
+                    picks.extend([pos, pos + 1, pos + c.blocks.len() - 2, pos + c.blocks.len() - 1]);
+                }
                 pos += c.blocks.len();
             }
             for _ in 0..24 {
@@ -104,8 +124,7 @@ pub fn prepare(args: &Args) {
             q.push(json!({"k": "range", "lo": last.slot + 1, "hi": last.slot + 500}));
             q.push(json!({"k": "range", "lo": first.slot - 500, "hi": first.slot - 1}));
             q.push(json!({"k": "fuzzy", "s": 0}));
-        } else {
-            let b = dropped[0];
+        } else if let Some(b) = dropped.first() {
             q.push(exact(b));
             q.push(json!({"k": "fuzzy", "s": b.slot}));
             q.push(json!({"k": "fuzzy", "s": 0}));
@@ -299,6 +318,10 @@ pub fn replay(args: &Args) {
             .map(|p| (db.lookup)(jint(&p[0]) as u64, jint(&p[1])).unwrap_or_else(|| die("vector names an unknown block")))
             .collect();
         let cap = all.len() + 64;
+        // an empty chunk file among the immutable ones (all but the last): recorded in the finding key
+        let chunks_v = jarr(&v["chunks"]);
+        let empty_imm = chunks_v.len() > 1 && chunks_v[..chunks_v.len() - 1].iter().any(|c| jarr(c).is_empty());
+        let sfx = if empty_imm { "/empty-chunk" } else { "" };
         let mut calls = 0usize;
         let mut bad = 0usize;
         let mut mism = |out: &mut Ndjson, key: String, q: Value, detail: Value| {
@@ -311,7 +334,7 @@ pub fn replay(args: &Args) {
         // read_blocks
         calls += 1;
         if let Some((cls, d)) = judge(1 + skew, &all, &call_read_blocks(&db.dir, cap)) {
-            mism(&mut out, format!("read_blocks/{cls}"), json!({"op": "read_blocks"}), d);
+            mism(&mut out, format!("read_blocks/{cls}{sfx}"), json!({"op": "read_blocks"}), d);
         }
         // get_tip
         calls += 1;
@@ -332,7 +355,7 @@ pub fn replay(args: &Args) {
                 Ok(Ok(None)) => "none",
                 Ok(Ok(Some(_))) => "wrong-point",
             };
-            mism(&mut out, format!("get_tip/{cls}"), json!({"op": "get_tip"}), json!({"want": v["tip"], "got": short(&format!("{got_tip:?}"))}));
+            mism(&mut out, format!("get_tip/{cls}{sfx}"), json!({"op": "get_tip"}), json!({"want": v["tip"], "got": short(&format!("{got_tip:?}"))}));
         }
         // read_blocks_from_point
         for a in jarr(&v["ans"]) {
@@ -373,7 +396,7 @@ pub fn replay(args: &Args) {
                     } else {
                         "exact-present".to_string()
                     };
-                    mism(&mut out, format!("read_blocks_from_point/{qc}/{cls}"), json!({"k": kind, "s": s, "h": h, "st": st}), d);
+                    mism(&mut out, format!("read_blocks_from_point/{qc}/{cls}{sfx}"), json!({"k": kind, "s": s, "h": h, "st": st}), d);
                 }
             }
         }
